@@ -53,6 +53,10 @@ impl Scheduler {
                     let _verif_unit = crate::verif::InFlight;
                     #[cfg(acts_verif)]
                     crate::verif::log(format!("X {} {}", task.pid, task.id));
+                    if task.state().is_completed() {
+                        // closed (skipped, aborted ..) while it was waiting in the queue
+                        return true;
+                    }
                     let ctx = &task.create_context();
                     task.exec(ctx).unwrap_or_else(|err| {
                         eprintln!("error: {err}");
